@@ -64,6 +64,7 @@ pub fn profile(name: &str) -> Profile {
         "reclaim" => Profile { name: "reclaim", reclaim_pct: 14, restart_pct: 3, ops: (50, 140), topics: 3, peek_pct: 25, offset_pct: 10, multi_unit_pct: 1, ..base },
         "crashw" => Profile { name: "crashw", crash_w_pct: 18, restart_pct: 2, multi_unit_pct: 1, alo_pct: 0, ops: (10, 45), ..base },
         "crashr" => Profile { name: "crashr", crash_r_pct: 22, restart_pct: 2, multi_unit_pct: 1, alo_pct: 40, peek_pct: 10, ops: (12, 50), ..base },
+        "marksfree" => Profile { name: "marksfree", marks_pct: 100, topics: 6, ops: (120, 260), alo_pct: 0, ..base },
         "crashbig" => Profile { name: "crashbig", crash_w_pct: 100, alo_pct: 0, mmap_pct: 25, ..base },
         "marks" => Profile { name: "marks", marks_pct: 45, restart_pct: 10, ops: (6, 30), ..base },
         _ => panic!("unknown profile {}", name),
@@ -169,6 +170,33 @@ fn gen_crashbig(r: &mut Rng, g: &Geo, backend: &str) -> Vec<String> {
 pub fn gen_program(r: &mut Rng, g: &Geo, p: &Profile, backend: &str, seed_tag: u64) -> Vec<String> {
     if p.name == "crashbig" {
         return gen_crashbig(r, g, backend);
+    }
+    if p.name == "marksfree" {
+        // the background persister runs freely: bursts of opposite marker changes on the same topic while its
+        // file write may be in flight, then a clean restart and the question what every topic reports
+        let mut lines = vec![format!("cfg {} strict {}", if g.small { "small" } else { "real" }, backend), "clock 1700000000000".into(), "open".into(), "persister free".into()];
+        let nt = p.topics as u64;
+        let mut clock = 1_700_000_000_000u64;
+        for round in 0..3 {
+            let n = p.ops.0 / 3 + r.below(((p.ops.1 - p.ops.0) / 3) as u64) as usize;
+            for _ in 0..n {
+                let t = format!("t{}", r.below(nt));
+                match r.below(6) {
+                    0 => { lines.push(format!("append {} 5:1", t)); lines.push(format!("mark {} clean", t)); }
+                    1 => { lines.push(format!("mark {} dirty", t)); lines.push(format!("mark {} clean", t)); }
+                    2 => { lines.push(format!("mark {} clean", t)); lines.push(format!("mark {} dirty", t)); }
+                    3 => { lines.push(format!("mark {} dirty", t)); lines.push(format!("mark {} clean", t)); lines.push(format!("mark {} dirty", t)); }
+                    4 => lines.push(format!("isclean {}", t)),
+                    _ => { for k in 0..nt { lines.push(format!("mark t{} {}", k, if r.chance(50) { "clean" } else { "dirty" })); } }
+                }
+            }
+            let _ = round;
+            if r.chance(50) { lines.push("restart".into()); clock += 3000; lines.push(format!("clock {}", clock)); } else { lines.push("close".into()); }
+            lines.push("open".into());
+            lines.push("persister free".into());
+            for k in 0..nt { lines.push(format!("isclean t{}", k)); }
+        }
+        return lines;
     }
     let mode = if r.chance(p.alo_pct) { format!("alo:{}", 1 + r.below(8)) } else { "strict".to_string() };
     let mut lines = vec![format!("cfg {} {} {}", if g.small { "small" } else { "real" }, mode, backend)];
